@@ -97,6 +97,8 @@ def build_color_doc(spec, shared=None):
             bkw["text_background_color"] = s["bg"]
         for side, mat in (s.get("brd") or {}).items():
             bkw["border_color_" + side] = mat
+        for side, mat in (s.get("bstyle") or {}).items():
+            bkw["border_" + side] = [list(row) for row in mat]
         if s.get("font"):
             bkw["text_font"] = s["font"]
         if s.get("group_by"):
@@ -110,7 +112,8 @@ def build_color_doc(spec, shared=None):
             headers.append([rtf.RTFColumnHeader(text=["~H%d.%d~" % (si + 1, j + 1) for j in range(m)], **comp_kw("header"))])
         else:
             headers.append([None])
-    page = rtf.RTFPage(nrow=spec.get("nrow", 40), **({"page_footnote": spec["page_footnote"]} if spec.get("page_footnote") else {}))
+    page = rtf.RTFPage(nrow=spec.get("nrow", 40), **({"page_footnote": spec["page_footnote"]} if spec.get("page_footnote") else {}),
+                       **({"margin": list(spec["margin"])} if spec.get("margin") else {}))
     if path == "single":
         hk = {} if spec.get("default_header") else {"rtf_column_header": headers[0] if "header" in comp else []}
         return rtf.RTFDocument(df=dfs[0], rtf_body=bodies[0], rtf_page=page, **hk, **kw)
@@ -233,7 +236,27 @@ POOL = {
     # multi-section, the first section has fewer columns than the last, no footnote
     "multi13": dict(path="multi", sections=[dict(n=2, m=1), dict(n=2, m=3)], comp={}),
     "paged": dict(path="single", sections=[dict(n=4, m=1, text=[["blue"], ["red"]])], comp={"title": ["", "", 0], "footnote": ["", "", 0]}, nrow=3),
+    # a 1x1 table on the RTFBody() shared with share2/share3 (its default 1x1 attribute grids have the table's shape)
+    "share1": dict(path="single", sections=[dict(n=1, m=1)], comp={}),
+    # two tables on one shared RTFBody(col_rel_width=[1]) (the one-value shorthand is expanded per document)
+    "sharew2": dict(path="single", sections=[dict(n=2, m=2)], comp={}),
+    "sharew3": dict(path="single", sections=[dict(n=2, m=3)], comp={}),
+    # coloured borders as the only colour / next to another colour (the same border gets another index)
+    "brdA": dict(path="single", sections=[dict(n=2, m=1, brd={"top": [["red"], ["red"]]})], comp={}),
+    "brdB": dict(path="single", sections=[dict(n=2, m=1, text=[["blue"], ["blue"]], brd={"top": [["red"], ["red"]]})], comp={}),
+    # a caller-supplied border matrix with exactly the shape of the first page (3 rows x 2 columns)
+    "cyc": dict(path="single", sections=[dict(n=5, m=2, bstyle={"bottom": [["single", ""], ["", "double"], ["dashed", "single"]],
+                                                                "top": [["", "single"], ["double", ""], ["", ""]]})], comp={}, nrow=3),
+    # the same paper and orientation with different margins, several pages
+    "pagedm1": dict(path="single", sections=[dict(n=5, m=2)], comp={}, nrow=3, margin=[1.25, 1.0, 1.75, 1.25, 1.75, 1.00625]),
+    "pagedm2": dict(path="single", sections=[dict(n=5, m=2)], comp={}, nrow=3, margin=[0.8, 1.4, 1.1, 0.9, 0.7, 0.6]),
 }
+SHARED_FAMILY = {"share1": "b", "share2": "b", "share3": "b", "sharew2": "w", "sharew3": "w"}
+
+
+def new_shared_body(fam):
+    import rtflite as rtf
+    return rtf.RTFBody() if fam == "b" else rtf.RTFBody(col_rel_width=[1])
 
 
 def build_pool_doc(name, shared_body=None, tmpdir=None):
@@ -245,4 +268,4 @@ def build_pool_doc(name, shared_body=None, tmpdir=None):
         import rtflite as rtf
         df = pl.DataFrame({"~D1.1~": ["a", "b", "a"], "~D1.2~": ["c1.1.2", "c1.2.2", "c1.3.2"]})
         return rtf.RTFDocument(df=df, rtf_body=rtf.RTFBody(group_by=["~D1.1~"], text_color="grey39"), rtf_title=None)
-    return build_color_doc(spec, shared=shared_body if name in ("share2", "share3") else None)
+    return build_color_doc(spec, shared=shared_body if name in SHARED_FAMILY else None)
